@@ -672,6 +672,19 @@ def normalise(t):
         _FOLD_CTR[0] += 1
         c = "b%d" % _FOLD_CTR[0]
         return normalise(("loop", ("if", ("iflet", ("pvar", "Option::Some", ("bind", c)), t[3][2][2]), ("call", "String::push", t[2], ("var", c)), ("break",))))
+    if h == "call" and t[1] in ("Option::unwrap_or_else", "Option::unwrap_or") and len(t) == 4 and _is(t[2], "mapopt") and len(t[2]) == 4 and _is(t[2][2], "bind"):
+        # x.map(f).unwrap_or_else(d) == match x { Some(v) => f(v), None => d() }
+        d = t[3]
+        if t[1] == "Option::unwrap_or_else":
+            d = t[3][2] if (_is(t[3], "lambda") and not t[3][1]) else ("icall", t[3])
+        return normalise(("match", t[2][1], (("pvar", "Option::Some", t[2][2]), t[2][3]), (("pvar", "Option::None"), d)))
+    if h == "mapopt" and len(t) == 4 and _is(t[1], "okopt") and len(t[1]) == 2 and _is(t[2], "bind"):
+        # r.ok().map(f) == match r { Ok(v) => Some(f(v)), Err(_) => None }
+        return normalise(("match", t[1][1], (("pvar", "Result::Ok", t[2]), ("Some", t[3])), (("pvar", "Result::Err", "_"), ("None",))))
+    if h == "call" and t[1] == "Option::or_else" and len(t) == 4 and _is(t[3], "lambda") and not t[3][1] and _is(t[2], "match") and all(len(a) == 2 for a in t[2][2:]) \
+            and all(_is(a[1], "Some") or a[1] == ("None",) for a in t[2][2:]):
+        # m.or_else(|| d): the None outcomes of m become d
+        return normalise(("match", t[2][1]) + tuple((a[0], t[3][2] if a[1] == ("None",) else a[1]) for a in t[2][2:]))
     if h == "call" and t[1] in ("Option::map_or", "Option::map_or_else") and len(t) == 5 and (_is(t[4], "lambda") or _is(t[4], "fnref")):
         # x.map_or(d, f) == match x { Some(v) => f(v), None => d }      (map_or_else: d is a thunk)
         _FOLD_CTR[0] += 1
@@ -790,6 +803,13 @@ def normalise(t):
                     arms = tuple((a[0], a[1] if _always_returns(a[1]) else normalise(("seq", ("let", x[1], a[1])) + rest)) for a in x[2][2:])
                     new_items = list(items[:i]) + [("match", x[2][1]) + arms]
                     return normalise(("seq",) + tuple(new_items)) if len(new_items) > 1 else new_items[0]
+        # let v = if c { return e } else { x }; rest   ==   if c { return e } else { let v = x; rest }
+        for i, x in enumerate(items):
+            if _is(x, "let") and len(x) == 3 and _is(x[2], "if") and len(x[2]) == 4 and _always_returns(x[2][2]) and not _always_returns(x[2][3]):
+                rest = tuple(items[i + 1:])
+                new_if = ("if", x[2][1], x[2][2], normalise(("seq", ("let", x[1], x[2][3])) + rest))
+                head = list(items[:i])
+                return normalise(("seq",) + tuple(head) + (new_if,)) if head else normalise(new_if)
         # let x = y (y a local that is not used afterwards): x is y
         for i, x in enumerate(items):
             if _is(x, "let") and len(x) == 3 and _is(x[2], "var") and isinstance(x[2][1], str) and re.match(r"^[mv]\d+$", x[2][1]) and isinstance(x[1], str):
